@@ -34,7 +34,7 @@ PodAsWl(p) == [ns |-> p.ns, name |-> p.name, labels |-> p.labels, ports |-> p.po
                kind |-> IF p.owner = "" THEN "Pod" ELSE p.ownerKind, expr |-> "bare",
                replicas |-> -1, podCount |-> 1, owner |-> p.owner]
 
-Apply(cur, o) ==
+ApplyBasic(cur, o) ==
   CASE o.op = "InsNs" ->
          [cur |-> [cur EXCEPT !.namespaces =
                       Upsert(@, [name |-> o.nso.name, hasObject |-> TRUE, labels |-> o.nso.labels],
@@ -69,6 +69,21 @@ Apply(cur, o) ==
          ELSE [cur |-> cur, res |-> "ok"]
     [] o.op = "Clear" ->
          [cur |-> EmptyEngine(cur.M, cur.pointPorts, cur.nAddr), res |-> "ok"]
+
+(* SetResources(policies, pods, namespaces): "simply calls InsertObject" -- the namespaces, then the policies, then the pods,  *)
+(* and it returns at the first error (what was inserted before stays)                                                        *)
+RECURSIVE ApplySeq(_, _)
+ApplySeq(cur, ops) ==
+  IF ops = <<>> THEN [cur |-> cur, res |-> "ok"]
+  ELSE LET a == ApplyBasic(cur, Head(ops))
+       IN IF a.res # "ok" THEN a ELSE ApplySeq(a.cur, Tail(ops))
+
+Apply(cur, o) ==
+  IF o.op = "SetRes"
+  THEN ApplySeq(cur, [i \in 1..Len(o.nss) |-> [op |-> "InsNs", nso |-> o.nss[i]]]
+                     \o [i \in 1..Len(o.nps) |-> [op |-> "InsNP", np |-> o.nps[i]]]
+                     \o [i \in 1..Len(o.pods) |-> [op |-> "InsPod", pod |-> o.pods[i]]])
+  ELSE ApplyBasic(cur, o)
 
 (* endpoint of a query: <<"p", ns, name>> or <<"a", class, "">> *)
 PodIndex(cur, ns, name) == Idx(cur.workloads, LAMBDA p : p.ns = ns /\ p.name = name)
